@@ -118,7 +118,13 @@ def do_roundtrip(e):
         e["wellformed"] = wellformed(fmt, data)
     h = Graph()
     try:
-        guarded(lambda: h.parse(data=data, format=PARSE_AS.get(fmt, fmt), **({"publicID": e["base"]} if e.get("base") else {})))
+        if isinstance(data, bytes) and "encoding" in kw:
+            # bytes in the encoding that was asked for: read like a file in that encoding would be (XML declares its own)
+            import io as _io
+            src = _io.BytesIO(data) if fmt in XML_FORMATS else _io.StringIO(data.decode("utf-8"))
+            guarded(lambda: h.parse(source=src, format=PARSE_AS.get(fmt, fmt), **({"publicID": e["base"]} if e.get("base") else {})))
+        else:
+            guarded(lambda: h.parse(data=data, format=PARSE_AS.get(fmt, fmt), **({"publicID": e["base"]} if e.get("base") else {})))
     except _Timeout:
         e["res"] = "timeout"
         return
@@ -130,7 +136,7 @@ def do_roundtrip(e):
     e["res"] = "ok"
     e["after"] = [[abst(x) for x in t] for t in h]
     if len(data) < 600:
-        e["text"] = data
+        e["text"] = data if isinstance(data, str) else repr(data)
 
 
 def ds_quads(ds):
